@@ -7,7 +7,7 @@
 From Coq Require Import List ZArith NArith String.
 Import ListNotations.
 Require Import AvraV.Model.Base AvraV.Model.Ast AvraV.Model.Eval AvraV.Model.Encode AvraV.Model.Parse AvraV.Model.Passes.
-Require Import AvraV.Proofs.TotalProofs.
+Require Import AvraV.Proofs.TotalProofs AvraV.Proofs.LayoutProofs.
 
 (** Expression evaluation never panics: division by zero, overflow, shift amounts, unknown
     functions and symbols are all error values; cyclic definitions end at the depth limit. *)
@@ -32,6 +32,17 @@ Theorem C16_pass1_total : forall t st ci, is_panic (pass1_item t st ci) = false.
 Proof. exact pass1_item_np. Qed.
 Print Assumptions C16_pass1_total.
 
+(** No size is truncated on its way into the layout: a location counter plus ANY advance (an unbounded natural number: a
+    reservation of 2^32 + 16 bytes is not a reservation of 16) that reaches 2^32 is an error naming the line, and what pass 1
+    accepts keeps every counter below 2^32 - which, with the device check at the end of pass 1 (C12_pass1_capacity), bounds
+    what pass 2 allocates by the device's memories. *)
+From Coq Require Import Lia.
+Theorem C16_no_truncation : forall line a b, (4294967296 <= a + b)%N -> advance line a b = Err (Some line).
+Proof. intros line a b H. unfold advance, two32. destruct (a + b <? 4294967296)%N eqn:E; [apply N.ltb_lt in E; lia | reflexivity]. Qed.
+Theorem C16_counter_bounded : forall line a b r, advance line a b = Ok r -> (r = a + b /\ a + b < two32)%N.
+Proof. exact AvraV.Proofs.LayoutProofs.advance_ok. Qed.
+Print Assumptions C16_no_truncation.
+
 (** Termination: every function of the model is total (structural recursion on explicit fuel);
     cyclic symbol definitions and recursive macros end in an error at depth 64. *)
 Definition outcome (src : string) : N :=
@@ -42,5 +53,6 @@ Example C16_examples :
   outcome (".equ x = y" ++ nl ++ ".equ y = x" ++ nl ++ ".dw x" ++ nl) = 1%N /\
   outcome (".macro m" ++ nl ++ "m" ++ nl ++ ".endm" ++ nl ++ "m" ++ nl) = 1%N /\
   outcome (".dw 99999999999999999999" ++ nl) = 1%N /\ outcome ("ldi r32, 1" ++ nl) = 1%N /\
-  outcome (".org 0xFFFFFFFF" ++ nl ++ "nop" ++ nl) = 1%N /\ outcome (".org 0x7fffffff" ++ nl ++ "nop" ++ nl) = 1%N.
+  outcome (".org 0xFFFFFFFF" ++ nl ++ "nop" ++ nl) = 1%N /\ outcome (".org 0x7fffffff" ++ nl ++ "nop" ++ nl) = 1%N /\
+  outcome (".eseg" ++ nl ++ ".byte 4294967312" ++ nl) = 1%N /\ outcome (".dseg" ++ nl ++ ".byte 0x100000000" ++ nl) = 1%N.
 Proof. vm_compute. repeat split; reflexivity. Qed.
